@@ -18,6 +18,10 @@ def plan(tier, seed):
     # thousand postings (many levels)
     specs.append({"name": "big-defaults", "kind": "big", "budget_s": 120 if tier == "quick" else 900,
                   "rounds": 1 if tier == "quick" else 6})
+    from vlib import gen as _gen
+    for sch in _gen.SCHEMES:
+        specs.append({"name": f"many-keywords-{_gen.SHORT[sch]}", "kind": "big", "many_schemes": [sch], "rounds": 0,
+                      "budget_s": 150})
     return specs
 
 
@@ -35,6 +39,57 @@ def run_big(spec, acc, ctx):
                   ("CJJ14.PiBas", {"param_lambda": 16, "prf_f_output_length": 16}, [3000, 1]),
                   # a posting list longer than 2^16: the per-posting counter needs a third byte
                   ("CJJ14.PiBas", {}, [65600, 2]), ("CJJ14.PiPack", {"param_B": 1}, [65540, 1])]
+    # more distinct keywords than any per-object memory holds (1200 keywords, lists of 1-2 postings over a small pool
+    # of files), every one searched, then every one searched AGAIN in the same order and a third time shuffled
+    for scheme in spec.get("many_schemes", []):
+        if ctx.out_of_time():
+            break
+        cfg = gen.default_config(scheme)
+        if scheme == "CGKO06.SSE1":
+            cfg.update(param_dictionary_size=2048)
+        nk = 1100 if scheme in ("CGKO06.SSE1", "CGKO06.SSE2") else 1200
+        try:
+            db, info = gen.db_from_lens(rng, scheme, cfg, [1 + (j % 2) for j in range(nk)], "many-keywords", kw_min=3)
+        except ValueError as e:
+            acc.note(f"many-keywords {scheme}: {e}")
+            continue
+        shadow = copy.deepcopy(db)
+        st = sse.Setup(scheme, cfg, db)
+        short = gen.SHORT[scheme]
+        acc.count("cases")
+        acc.count("many_keyword_cases")
+        if st.error is not None:
+            acc.violation(sse.setup_signature(scheme, st), f"{scheme} {st.phase} raised {type(st.error).__name__}: "
+                          f"{st.error} on a database of {nk} keywords", {"scheme": scheme, "cfg": cfg, "keywords": nk})
+            continue
+        words = list(shadow)
+        ok = True
+        passes = (words, words) if scheme in ("CGKO06.SSE1", "CGKO06.SSE2") else (words, words, rng.sample(words, len(words)))
+        for npass, order in enumerate(passes):
+            for w in order:
+                acc.count("searches.present")
+                acc.count(f"searches.present.{short}")
+                try:
+                    got = st.search(w)
+                except Exception as e:
+                    acc.violation(f"{short}:search-raised:many-keywords", f"{type(e).__name__}: {e} (pass {npass + 1} over "
+                                  f"{nk} distinct keywords on one scheme object)", {"scheme": scheme, "cfg": cfg})
+                    ok = False
+                    break
+                if not sse.result_matches(scheme, got, shadow[w]):
+                    acc.violation(f"{short}:wrong-result:many-keywords",
+                                  f"{scheme}: pass {npass + 1} over {nk} distinct keywords on one scheme object: a stored "
+                                  f"keyword's result has {len(got)} ids, expected {len(shadow[w])}",
+                                  {"scheme": scheme, "cfg": cfg, "pass": npass + 1})
+                    ok = False
+                    break
+            if not ok:
+                break
+        if ok:
+            acc.add("distinct", sse.case_fp(scheme, "many-keywords", {b"n": [bytes([1])]}))
+            acc.add("many_keyword_schemes", scheme)
+    if spec.get("many_schemes"):
+        return
     for scheme, over, lens in plans:
         if ctx.out_of_time():
             break
@@ -102,6 +157,7 @@ def replay(case, acc, ctx):
 def finish(m, tier, seed):
     cov, inc = eng.finish(m, tier, "present", 50)
     cov["default_size_cases"] = m["counters"].get("big_default_cases", 0)
+    cov["databases_of_1200_keywords_searched_three_times"] = m["counters"].get("many_keyword_cases", 0)
     if len(m["sets"].get("big_schemes", [])) < 8:
         inc.append("default-size workloads did not cover the schemes")
     return {"coverage": cov, "inconclusive": inc,
